@@ -119,13 +119,24 @@ func (x *Exec) call(s *State, fr *Frame, call *ast.CallExpr) Value {
 	var res Value
 	// append-like calls (contract directive): remember the first argument's region
 	var appendBase *SliceV
+	appendArg := -1
 	if cf := x.contractFrame(fr); cf != nil && x.spec == 0 && len(call.Args) > 0 {
 		for _, t := range cf.contract.AppendLike {
 			if t == callText {
-				if sv, ok := x.specExpr(s, fr, call.Args[0]).(*SliceV); ok {
+				// the destination is the first argument of slice type
+				for k, a := range call.Args {
+					if _, isSlice := info.TypeOf(a).Underlying().(*types.Slice); isSlice {
+						appendArg = k
+						break
+					}
+				}
+				if appendArg < 0 {
+					unsup("appendlike call %s: no slice argument", callText)
+				}
+				if sv, ok := x.specExpr(s, fr, call.Args[appendArg]).(*SliceV); ok {
 					appendBase = sv
 				} else {
-					unsup("appendlike call %s: first argument is not a slice", callText)
+					unsup("appendlike call %s: destination argument is not a slice value", callText)
 				}
 			}
 		}
@@ -146,7 +157,7 @@ func (x *Exec) call(s *State, fr *Frame, call *ast.CallExpr) Value {
 		if out == nil {
 			return
 		}
-		et := info.TypeOf(call.Args[0]).Underlying().(*types.Slice).Elem()
+		et := info.TypeOf(call.Args[appendArg]).Underlying().(*types.Slice).Elem()
 		fresh := x.newRegion(s, memName(et), "alloc")
 		s.assume(Or(And(Eq(out.Rgn, appendBase.Rgn), Not(Eq(appendBase.Cap, I64(0)))), Eq(out.Rgn, fresh), Eq(out.Cap, I64(0))))
 		x.note("assumed", "the call "+callText+" follows the append idiom: the slice it returns lies in its first argument's memory or in fresh memory")
